@@ -37,6 +37,16 @@ HX void hx_singleton(uint64_t nthreads) {
    vs_assert(ctor_count == 1, "singleton object is constructed exactly once");
    vs_assert(got[0] != nullptr && got[0] == got[1], "all threads get the same singleton object");
 }
+// reset(): afterwards every thread - also one that used the singleton before - gets the same, new object
+HX void hx_singleton_reset(uint64_t) {
+   vs_mt_shared(&ctor_count, sizeof ctor_count); vs_mt_shared(got, sizeof got);
+   got[0] = &Obj::instance();                                    // this thread has used the singleton
+   std::thread t1([] { Obj::reset(); got[1] = &Obj::instance(); });    // another thread resets it and uses it again
+   t1.join();
+   got[2] = &Obj::instance();
+   vs_assert(ctor_count == 2, "after reset() the next access constructs a new object, exactly once");
+   vs_assert(got[1] != nullptr && got[2] == got[1], "after reset() all threads get the same, new singleton object");
+}
 // sequential first and second access (candidate detection for shared static state of the singleton template)
 HX void hx_singleton_seq(uint64_t) { got[0] = &Obj::instance(); got[1] = &Obj::instance(); }
 // managed thread: worker runs the user function, an observer thread started after the constructor returned samples it
@@ -52,6 +62,17 @@ HX void hx_managed(uint64_t) {
    obs.join();
    mt->join();
    vs_assert(!mt->isActive(), "isActive() is false after the function returned and the thread was joined");
+}
+
+// a managed thread that is destroyed right after its construction: the destructor joins (documented), i.e. the thread function
+// has run to completion and nothing of the object is touched afterwards
+HX void hx_managed_destroy(uint64_t) {
+   vs_mt_shared(&started, sizeof started); vs_mt_shared(&finished, sizeof finished); vs_mt_shared(mt_storage, sizeof mt_storage);
+   ManagedThread* mt = new (mt_storage) ManagedThread([] { started.store(1, std::memory_order_release); finished.store(1, std::memory_order_release); });
+   mt->~ManagedThread();
+   vs_assert(finished.load(std::memory_order_acquire) == 1, "the destructor of a managed thread waits until the thread function has returned");
+   volatile uint64_t* w = reinterpret_cast<volatile uint64_t*>(mt_storage);      // the storage is re-used
+   for (unsigned i = 0; i < sizeof mt_storage / 8; ++i) w[i] = 0xAAAAAAAAAAAAAAAAull;
 }
 
 // ---- C09: two independent handlers used concurrently (different list separators, constraints, checks)
